@@ -141,12 +141,14 @@ def main(tier, seed):
     chk.log('growth probe: %d nesting units pumped and replayed natively, %d findings' % (len(probes), len(findings)))
     for site, fam, desc, cex in findings:
         chk.violation(site, fam, desc, cex, confirmed=True)
+    # long flat runs and recursive chains, parsed natively (executed code): whatever the bounded runs and the growth probe's witnesses do not reach
+    synrun.flat_runs(chk, oracle, ['C02'])
     # release-like profile (overflow checks / debug assertions off): what users run
     syn.load('release', log=chk.log, need_oracle=False)
     synrun.token_suite(chk, oracle, sp, jobs, ['C02'], B['tokens_release'], B['ctx_release'], profile='release', validate=False)
     synrun.lexer_suite(chk, oracle, sp, jobs, ['C02'], B['lex_release'], 0, profile='release')
     oracle.close()
-    chk.assumptions += synrun.SYN_ASSUMPTIONS + ['inputs longer than the bounds are covered only along the natively replayed nesting families of the growth probe']
+    chk.assumptions += synrun.SYN_ASSUMPTIONS + ['inputs longer than the bounds are covered only along the natively replayed nesting families of the growth probe and along 13 flat + 19 recursive-chain families pumped to 3 000 / 200 000 links (executed natively, not a solver verdict)']
     chk.trusted += synrun.SYN_TRUSTED
     syn.W.cleanup()
     return chk.finish({'growth_probe': probes, 'unrealisable_counterexamples': chk.extra.get('unrealisable', 0)})
@@ -157,6 +159,11 @@ def replay(path):
     syn.load('dev', log=lambda m: None)
     oracle = native.Oracle(syn.ORACLE_BIN)
     cex = d['cex']
+    if cex.get('kind') == 'flat-run':
+        text = cex['prefix'] + cex['sep'].join([cex['unit']] * cex['count']) + cex['suffix']
+        r = oracle.ask('roundtrip', text)
+        print(json.dumps({'family': cex['family'], 'count': cex['count'], 'bytes': len(text), 'native': r}, indent=1))
+        return 0 if (isinstance(r, dict) and r.get('text_ok') is True and r.get('contiguous') is True) else 1
     if 'text' in cex:
         txt = cex['text']
     else:
